@@ -78,98 +78,109 @@ SERVER_WF = ('self.ping_timeout >= 0 and self.ping_interval >= 0 and '
              'self.ping_interval_grace_period >= 0 and self.max_http_buffer_size >= 0 and '
              '0 <= self.sequence_number and self.sequence_number < 16777216 and '
              '(self.cookie is None or isinstance(self.cookie, str))')
-c = REG.contract('server.Server._handle_connect', props=['C05', 'C11', 'C16', 'C06'])
-c.shards = 8
-c.param('self', Ref('Server')).param('environ', ENV).param('start_response', SR)
-c.param('transport', STR).param('jsonp_index', [NONE, INT])
-c.returns_cases(('http-response', "transport != 'websocket' or "
-                 "self._async['websocket'] is None or True", RESP),
-                ('websocket-session', "transport == 'websocket'", QI))
-c.requires(SERVER_WF, 'server-wf')
-c.requires("transport == 'polling' or transport == 'websocket'", 'transport')
-c.requires("'connect' in self.handlers and handler_accepts(self.handlers['connect'], 2)",
-           'connect-handler-registered')
-# C07: the heartbeat is armed at the OPEN: when the connect handler is about to run, the last
-# background task started is this session's _send_ping (PING one ping_interval after the OPEN)
-c.check_before("ret = self._trigger_event('connect'", 'heartbeat-armed-at-open',
-               "len(spawned) > len(old(spawned)) and "
-               "spawned[len(spawned) - 1] == mk_task('_send_ping', s)", props=['C07', 'C16'])
-c.may_raise('Exception', "transport == 'websocket'", label='websocket-driver-error')
-c.ensures('id-issued', 'len(csprng) == len(old(csprng)) + 1', props=['C11', 'C17'])
-c.ensures('only-the-new-id-is-touched', 'dict_del(self.sockets, ' + NEW_SID + ') == '
-          'dict_del(old(self.sockets), ' + NEW_SID + ')', props=['C11', 'C16'])
-c.ensures('connect-handler-first-and-once',
-          "events[0:len(old(events))] == old(events) and len(events) > len(old(events)) and "
-          "ev_handler(events[len(old(events))]) == self.handlers['connect'] and "
-          "ev_arg0(events[len(old(events))]) == " + NEW_SID, props=['C05', 'C11'])
-NEWQ = 'self.sockets[' + NEW_SID + '].queue'
-# the accept / reject decision is checked where it is taken: the connection proceeds only for
-# None / True (by identity: 1 or 1.0 are JSON values and must be rejected), and is discarded
-# only otherwise; `ret` is what the connect handler returned, or False when it raised
-# (postconditions of _trigger_event)
-c.check_before("if transport == 'websocket':", 'accepted-only-for-None-or-True',
-               'connect_accepted(ret)', props=['C11'])
-c.check_before('del self.sockets[sid]', 'rejected-only-for-other-values',
-               'not connect_accepted(ret)', props=['C11'])
-c.ensures('rejected-id-never-addressable', "implies(transport == 'polling' and "
-          "result['status'] == '401 UNAUTHORIZED', " + NEW_SID + " not in self.sockets)",
-          props=['C11', 'C16'])
-c.ensures('status-is-200-401-or-400', "implies(isinstance(result, dict), result['status'] in "
-          "('200 OK', '401 UNAUTHORIZED', '400 BAD REQUEST'))", props=['C11', 'C15'])
-c.ensures('accepted-session-created', "implies(transport == 'polling' and "
-          "result['status'] == '200 OK', " + NEW_SID + " in self.sockets and "
-          "self.sockets[" + NEW_SID + "].connected and self.sockets[" + NEW_SID + "].sid == " +
-          NEW_SID + " and not self.sockets[" + NEW_SID + "].upgraded)", props=['C11'])
-c.ensures('open-packet-first-and-reflects-configuration',
-          "implies(transport == 'polling' and result['status'] == '200 OK', "
-          "len(" + NEWQ + ".taken) >= 1 and " + NEWQ + ".taken[0].packet_type == 0 and " +
-          NEWQ + ".taken[0].data == open_info(self, " + NEW_SID + ", transport))",
-          props=['C11'])
-c.ensures('response-carries-the-taken-packets',
-          "implies(transport == 'polling' and result['status'] == '200 OK' and "
-          "jsonp_index is None, result['response'] == payload_text(" + NEWQ + ".taken, "
-          "len(" + NEWQ + ".taken)).encode('utf-8'))", props=['C11', 'C03'])
-c.ensures('cookie-exactly-when-configured',
-          "implies(transport == 'polling' and result['status'] == '200 OK', "
-          "result['headers'] == ([('Set-Cookie', cookie_value(" + NEW_SID + ", "
-          "{'name': self.cookie, 'path': '/', 'SameSite': 'Lax'}))] if self.cookie else []) + "
-          "[('Content-Type', 'text/plain; charset=UTF-8')])", props=['C11'])
-c.ensures('no-response-sent-by-an-http-answer', "implies(isinstance(result, dict), "
-          "sr_log == old(sr_log))", props=['C15'])
-c.ensures('polling-accept-or-reject-adds-no-other-event', "implies(transport == 'polling', "
-          "len(events) == len(old(events)) + 1)", props=['C05'])
-c.modifies('self.sockets', 'self.sequence_number', 'self.start_service_task',
-           'self.service_task_handle', 'ghost.csprng', 'ghost.events', 'ghost.hresults', 'ghost.spawned',
-           'ghost.now', 'ghost.ws_log', 'ghost.received', 'ghost.sr_log', 'ghost.sr_headers',
-           'Packet.encode_cache')      # the new socket, its queue and packets are fresh objects
+for _cls, _mod in (('Server', 'server'), ('AsyncServer', 'async_server')):
+    c = REG.contract('%s.%s._handle_connect' % (_mod, _cls), props=['C05', 'C11', 'C16', 'C06'])
+    c.shards = 8
+    c.param('self', Ref(_cls)).param('environ', ENV)
+    if _cls == 'Server':
+        c.param('start_response', SR)
+    c.param('transport', STR).param('jsonp_index', [NONE, INT])
+    c.returns_cases(('http-response', "transport != 'websocket' or "
+                     "self._async['websocket'] is None or True", RESP),
+                    ('websocket-session', "transport == 'websocket'", QI),
+                    # (the asyncio drivers' upgrade call returns None)
+                    *([('websocket-session-over', "transport == 'websocket'", NONE)]
+                      if _cls == 'AsyncServer' else []))
+    c.requires(SERVER_WF, 'server-wf')
+    c.requires("transport == 'polling' or transport == 'websocket'", 'transport')
+    c.requires("'connect' in self.handlers and handler_accepts(self.handlers['connect'], 2)",
+               'connect-handler-registered')
+    # C07: the heartbeat is armed at the OPEN: when the connect handler is about to run, the last
+    # background task started is this session's _send_ping (PING one ping_interval after the OPEN)
+    c.check_before("ret = self._trigger_event('connect'" if _cls == 'Server' else
+                   "ret = await self._trigger_event('connect'", 'heartbeat-armed-at-open',
+                   "len(spawned) > len(old(spawned)) and "
+                   "spawned[len(spawned) - 1] == mk_task('_send_ping', s)", props=['C07', 'C16'])
+    c.may_raise('Exception', "transport == 'websocket'", label='websocket-driver-error')
+    c.ensures('id-issued', 'len(csprng) == len(old(csprng)) + 1', props=['C11', 'C17'])
+    c.ensures('only-the-new-id-is-touched', 'dict_del(self.sockets, ' + NEW_SID + ') == '
+              'dict_del(old(self.sockets), ' + NEW_SID + ')', props=['C11', 'C16'])
+    c.ensures('connect-handler-first-and-once',
+              "events[0:len(old(events))] == old(events) and len(events) > len(old(events)) and "
+              "ev_handler(events[len(old(events))]) == self.handlers['connect'] and "
+              "ev_arg0(events[len(old(events))]) == " + NEW_SID, props=['C05', 'C11'])
+    NEWQ = 'self.sockets[' + NEW_SID + '].queue'
+    # the accept / reject decision is checked where it is taken: the connection proceeds only for
+    # None / True (by identity: 1 or 1.0 are JSON values and must be rejected), and is discarded
+    # only otherwise; `ret` is what the connect handler returned, or False when it raised
+    # (postconditions of _trigger_event)
+    c.check_before("if transport == 'websocket':", 'accepted-only-for-None-or-True',
+                   'connect_accepted(ret)', props=['C11'])
+    c.check_before('return self._unauthorized(ret or None)', 'rejected-only-for-other-values',
+                   'not connect_accepted(ret)', props=['C11'])
+    c.ensures('rejected-id-never-addressable', "implies(transport == 'polling' and "
+              "result['status'] == '401 UNAUTHORIZED', " + NEW_SID + " not in self.sockets)",
+              props=['C11', 'C16'])
+    c.ensures('status-is-200-401-or-400', "implies(isinstance(result, dict), result['status'] in "
+              "('200 OK', '401 UNAUTHORIZED', '400 BAD REQUEST'))", props=['C11', 'C15'])
+    c.ensures('accepted-session-created', "implies(transport == 'polling' and "
+              "result['status'] == '200 OK', " + NEW_SID + " in self.sockets and "
+              "self.sockets[" + NEW_SID + "].connected and self.sockets[" + NEW_SID + "].sid == " +
+              NEW_SID + " and not self.sockets[" + NEW_SID + "].upgraded)", props=['C11'])
+    c.ensures('open-packet-first-and-reflects-configuration',
+              "implies(transport == 'polling' and result['status'] == '200 OK', "
+              "len(" + NEWQ + ".taken) >= 1 and " + NEWQ + ".taken[0].packet_type == 0 and " +
+              NEWQ + ".taken[0].data == open_info(self, " + NEW_SID + ", transport))",
+              props=['C11'])
+    c.ensures('response-carries-the-taken-packets',
+              "implies(transport == 'polling' and result['status'] == '200 OK' and "
+              "jsonp_index is None, result['response'] == payload_text(" + NEWQ + ".taken, "
+              "len(" + NEWQ + ".taken)).encode('utf-8'))", props=['C11', 'C03'])
+    c.ensures('cookie-exactly-when-configured',
+              "implies(transport == 'polling' and result['status'] == '200 OK', "
+              "result['headers'] == ([('Set-Cookie', cookie_value(" + NEW_SID + ", "
+              "{'name': self.cookie, 'path': '/', 'SameSite': 'Lax'}))] if self.cookie else []) + "
+              "[('Content-Type', 'text/plain; charset=UTF-8')])", props=['C11'])
+    c.ensures('no-response-sent-by-an-http-answer', "implies(isinstance(result, dict), "
+              "sr_log == old(sr_log))", props=['C15'])
+    c.ensures('polling-accept-or-reject-adds-no-other-event', "implies(transport == 'polling', "
+              "len(events) == len(old(events)) + 1)", props=['C05'])
+    c.modifies('self.sockets', 'self.sequence_number', 'self.start_service_task',
+               'self.service_task_handle', 'ghost.csprng', 'ghost.events', 'ghost.hresults', 'ghost.spawned',
+               'ghost.now', 'ghost.ws_log', 'ghost.received', 'ghost.sr_log', 'ghost.sr_headers',
+               'Packet.encode_cache')      # the new socket, its queue and packets are fresh objects
 
 # ----------------------------------------------------------------------------------- disconnect
 TABLE_WF = 'all_values(self.sockets, lambda s: sock_wf(s))'
 SRV_MOD = ['self.sockets', 'Socket.closing', 'Socket.closed', 'Queue.items', 'Queue.unf',
            'Queue.taken', 'Queue.accepted', 'Queue.put_none', 'Queue.taken_none',
            'ghost.events', 'ghost.hresults', 'ghost.now', 'ghost.spawned']
-c = REG.contract('server.Server.disconnect', props=['C05', 'C15', 'C16'])
-c.param('self', Ref('Server')).param('sid', [NONE, STR])
-c.requires(TABLE_WF, 'sockets-wf')
-c.ensures('dead-id-is-silent-noop', 'implies(sid is not None and old(' + DEAD + '), '
-          'events == old(events) and hresults == old(hresults) and (self.sockets == old(self.sockets) or '
-          'self.sockets == dict_del(old(self.sockets), sid)))', props=['C16'])
-c.ensures('live-session-closed-and-removed', 'implies(sid is not None and not old(' + DEAD + '), '
-          'sid not in self.sockets and old(self.sockets)[sid].closing and '
-          'dict_del(self.sockets, sid) == dict_del(old(self.sockets), sid))',
-          props=['C05', 'C16'])
-c.ensures('server-disconnect-reason', "implies(sid is not None and not old(" + DEAD + ") and "
-          "not old(self.sockets[sid].closing) and 'disconnect' in self.handlers, "
-          "one_disconnect(events, old(events), self.handlers['disconnect'], sid, "
-          "'server disconnect'))", props=['C05'])
-c.ensures('all-sessions-removed', 'implies(sid is None, len(self.sockets) == 0)', props=['C16'])
-c.ensures('events-only-grow', 'grows(events, old(events))')
-c.modifies(*SRV_MOD)
-c.loop(0, index='i', invariants=[('events-only-grow', 'grows(events, old(events))'),
-                                  ('sockets-wf', TABLE_WF)],
-       modifies=['Socket.closing', 'Socket.closed', 'Queue.items', 'Queue.unf', 'Queue.taken',
-                 'Queue.accepted', 'Queue.put_none', 'Queue.taken_none', 'ghost.events', 'ghost.hresults',
-                 'ghost.now', 'ghost.spawned'])
+for _cls, _mod in (('Server', 'server'), ('AsyncServer', 'async_server')):
+    c = REG.contract('%s.%s.disconnect' % (_mod, _cls), props=['C05', 'C15', 'C16'])
+    # asyncio disconnect(None) closes all sessions in concurrent tasks (asyncio.wait over
+    # create_task): outside the sequential model, so the asyncio contract covers disconnect(sid)
+    c.param('self', Ref(_cls)).param('sid', [NONE, STR] if _cls == 'Server' else STR)
+    c.requires(TABLE_WF, 'sockets-wf')
+    c.ensures('dead-id-is-silent-noop', 'implies(sid is not None and old(' + DEAD + '), '
+              'events == old(events) and hresults == old(hresults) and (self.sockets == old(self.sockets) or '
+              'self.sockets == dict_del(old(self.sockets), sid)))', props=['C16'])
+    c.ensures('live-session-closed-and-removed', 'implies(sid is not None and not old(' + DEAD + '), '
+              'sid not in self.sockets and old(self.sockets)[sid].closing and '
+              'dict_del(self.sockets, sid) == dict_del(old(self.sockets), sid))',
+              props=['C05', 'C16'])
+    c.ensures('server-disconnect-reason', "implies(sid is not None and not old(" + DEAD + ") and "
+              "not old(self.sockets[sid].closing) and 'disconnect' in self.handlers, "
+              "one_disconnect(events, old(events), self.handlers['disconnect'], sid, "
+              "'server disconnect'))", props=['C05'])
+    c.ensures('all-sessions-removed', 'implies(sid is None, len(self.sockets) == 0)', props=['C16'])
+    c.ensures('events-only-grow', 'grows(events, old(events))')
+    c.modifies(*SRV_MOD)
+    if _cls == 'Server':
+        c.loop(0, index='i', invariants=[('events-only-grow', 'grows(events, old(events))'),
+                                         ('sockets-wf', TABLE_WF)],
+               modifies=['Socket.closing', 'Socket.closed', 'Queue.items', 'Queue.unf',
+                         'Queue.taken', 'Queue.accepted', 'Queue.put_none', 'Queue.taken_none',
+                         'ghost.events', 'ghost.hresults', 'ghost.now', 'ghost.spawned'])
 
 for cls, mod in (('Server', 'server'), ('AsyncServer', 'async_server')):
     c = REG.contract('%s.%s.send' % (mod, cls), props=['C03', 'C15', 'C16'])
@@ -225,108 +236,130 @@ NOTHING_BUT_REAPING = NOTHING.replace(
     "self.sockets == old(self.sockets) and",
     "(self.sockets == old(self.sockets) or (q_sid(environ) is not None and "
     "self.sockets == dict_del(old(self.sockets), q_sid(environ)))) and")
-c = REG.contract('server.Server.handle_request', props=['C12', 'C13', 'C15', 'C19', 'C03', 'C04'])
-c.shards = 1        # cut points make the exploration linear; path sharding is not needed
-c.param('self', Ref('Server')).param('environ', ENV).param('start_response', SR)
-c.returns_cases(('http-response', 'True', List(BYTES)),
-                ('websocket-session', 'is_websocket_request(self, environ)', QI))
-c.requires(SERVER_WF, 'server-wf')
-c.requires(TABLE_WF, 'sockets-wf')
-c.requires(CFG_OK, 'cors-config-shape')
-c.requires("'REQUEST_METHOD' in environ", 'gateway-environ')
-c.requires("'connect' in self.handlers and handler_accepts(self.handlers['connect'], 2)",
-           'connect-handler-registered')
-c.requires("all_values(self.sockets, lambda s: not s.upgrading)", 'no-upgrade-in-progress')
-c.requires("'wsgi.input' in environ and ('CONTENT_LENGTH' not in environ or "
-           "(int_ok(environ['CONTENT_LENGTH']) and int(environ['CONTENT_LENGTH']) >= 0))",
-           'gateway-body')
-c.requires('len(sr_log) == 0', 'fresh-request')
-SECOND_UPGRADE = ("not origin_refused(self.cors_allowed_origins, environ) and "
-                  "refusal(self, environ) == 0 and environ['REQUEST_METHOD'] == 'GET' and "
-                  "q_sid(environ) is not None and "
-                  "is_upgrade_request(environ, ['websocket']) and "
-                  "self.sockets[q_sid(environ)].upgraded")
-c.raises('OSError', SECOND_UPGRADE, label='second-upgrade-refused-undisturbed',
-         ensures=[('established-websocket-undisturbed',
-                   "self.sockets == old(self.sockets) and events == old(events) and "
-                   "hresults == old(hresults) and received == old(received) and "
-                   "unchanged('BaseSocket.closing', 'BaseSocket.closed', 'BaseSocket.upgraded', "
-                   "'BaseSocket.upgrading', 'BaseSocket.connected', 'Queue.taken') and "
-                   "len(sr_log) == 0")],
-         props=['C06'])
-c.may_raise('Exception', 'is_websocket_request(self, environ)', label='websocket-driver-error',
-            props=['C15'])
-c.ensures('origin-gate-first', "implies(origin_refused(self.cors_allowed_origins, environ), "
-          "sr_log == ['400 BAD REQUEST'] and " + NOTHING + ")", props=['C13'])
-c.ensures('refused-400-has-no-effect', "implies(not origin_refused(self.cors_allowed_origins, "
-          "environ) and old(refusal(self, environ)) == 400, sr_log == ['400 BAD REQUEST'] and " +
-          NOTHING_BUT_REAPING + ")", props=['C12'])
-c.ensures('refused-405-has-no-effect', "implies(not origin_refused(self.cors_allowed_origins, "
-          "environ) and old(refusal(self, environ)) == 405, sr_log == ['405 METHOD NOT FOUND'] and " +
-          NOTHING + ")", props=['C12'])
-c.ensures('one-well-formed-response', "implies(not old(is_websocket_request(self, environ)), "
-          "len(sr_log) == 1 and sr_log[0] in ('200 OK', '400 BAD REQUEST', '401 UNAUTHORIZED', "
-          "'405 METHOD NOT FOUND') and len(result) == 1)", props=['C15'])
-c.modifies('self.sockets', 'self.sequence_number', 'self.start_service_task',
-           'self.service_task_handle', 'Socket.closing', 'Socket.closed', 'Socket.connected',
-           'Socket.upgraded', 'Socket.upgrading', 'Queue.items', 'Queue.unf', 'Queue.taken',
-           'Queue.accepted', 'Queue.put_none', 'Queue.taken_none', 'Packet.encode_cache',
-           'ghost.csprng', 'ghost.events', 'ghost.hresults', 'ghost.spawned', 'ghost.now', 'ghost.ws_log',
-           'ghost.received', 'ghost.reads', 'ghost.sr_log', 'ghost.sr_headers')
-c.ghost_before('if self.http_compression and', 'r0', 'r')
-METHODS = "('gzip', 'deflate')"
-c.loop(1, index='i', invariants=[
-    ('untouched-so-far', "r['status'] == r0['status'] and r['headers'] == r0['headers'] and "
-     "r['response'] == r0['response']"),
-    ('none-of-the-earlier-codings-is-supported',
-     'forall(lambda k: not supported(encodings[k]), 0, i)')],
-    modifies=['r'], props=['C19'])
-DECLARED = ("exists(lambda i: supported(offered(environ)[i]) and "
-            "forall(lambda k: not supported(offered(environ)[k]), 0, i) and "
-            "r['headers'] == r0['headers'] + [('Content-Encoding', offered(environ)[i])] and "
-            "r['response'] == compressed(offered(environ)[i], r0['response']), "
-            "0, len(offered(environ)))")
-ELIGIBLE = "self.http_compression and len(r0['response']) >= self.compression_threshold"
-c.check_before('cors_headers = self._cors_headers(environ)', 'status-kept',
-               "r['status'] == r0['status']")
-c.check_before('cors_headers = self._cors_headers(environ)',
-               'undeclared-body-is-never-compressed',
-               "implies(r['headers'] == r0['headers'], r['response'] == r0['response'])",
-               props=['C19'])
-c.check_before('cors_headers = self._cors_headers(environ)',
-               'declared-only-if-enabled-large-enough-and-offered',
-               "r['headers'] == r0['headers'] or (" + ELIGIBLE + " and " + DECLARED + ")",
-               props=['C19'])
-c.check_before('cors_headers = self._cors_headers(environ)',
-               'first-supported-offered-coding-is-used',
-               "implies(" + ELIGIBLE + " and exists(lambda i: supported(offered(environ)[i]), 0, "
-               "len(offered(environ))), r['headers'] != r0['headers'])", props=['C19'])
-NOT_GATED = 'not origin_refused(self.cors_allowed_origins, environ)'
-c.cut('if jsonp and jsonp_index is None:', [
-    ('gate-passed', NOT_GATED),
-    ('nothing-yet', 'len(sr_log) == 0 and ' + NOTHING),
-    ('method', "method == environ['REQUEST_METHOD']"),
-    ('query', 'query == q_of(environ)'),
-    ('transport', 'transport == q_transport(environ) and transport in self.transports'),
-    ('sid', 'sid == q_sid(environ)'),
-    ('version', "implies(sid is None, query.get('EIO') == ['4'])"),
-    ('jsonp-flag', "jsonp == ('j' in query)"),
-    ('jsonp-index', "implies(jsonp and jsonp_index is None, jsonp_bad(environ)) and "
-     "implies(jsonp_index is not None, jsonp and not jsonp_bad(environ))"),
-])
-c.cut('if not isinstance(r, dict):', [
-    ('no-response-yet', 'implies(isinstance(r, dict), len(sr_log) == 0)'),
-    ('refused-400', 'implies(' + NOT_GATED + " and old(refusal(self, environ)) == 400, "
-     "r['status'] == '400 BAD REQUEST' and " + NOTHING_BUT_REAPING + ')'),
-    ('refused-405', 'implies(' + NOT_GATED + " and old(refusal(self, environ)) == 405, "
-     "r['status'] == '405 METHOD NOT FOUND' and " + NOTHING + ')'),
-    ('gate-passed', NOT_GATED),
-    ('second-upgrade-never-answered', 'not old(' + SECOND_UPGRADE + ')'),
-    ('non-dict-only-when-admitted', 'isinstance(r, dict) or old(refusal(self, environ)) == 0'),
-    ('non-dict-only-for-websocket', 'isinstance(r, dict) or old(is_websocket_request(self, environ))'),
-    ('status-line', "implies(isinstance(r, dict), r['status'] in ('200 OK', '400 BAD REQUEST', "
-     "'401 UNAUTHORIZED', '405 METHOD NOT FOUND'))"),
-])
+REG.contract('async_server.AsyncServer._make_response').inline = True
+for _cls, _mod in (('Server', 'server'), ('AsyncServer', 'async_server')):
+    c = REG.contract('%s.%s.handle_request' % (_mod, _cls), props=['C12', 'C13', 'C15', 'C19', 'C03', 'C04'])
+    c.shards = 1        # cut points make the exploration linear; path sharding is not needed
+    if _cls == 'Server':
+        c.param('self', Ref('Server')).param('environ', ENV).param('start_response', SR)
+        c.returns_cases(('http-response', 'True', List(BYTES)),
+                        ('websocket-session', 'is_websocket_request(self, environ)', QI))
+    else:
+        # handle_request(*args, **kwargs): the framework's request is turned into a WSGI-style
+        # environ by the async driver's translate_request (driver glue, abstract region); the
+        # response is built by the driver's make_response, recorded in the same ghost log as a
+        # WSGI start_response call
+        c.param('self', Ref('AsyncServer'))
+        c.param('args', Opaque('DriverArgs')).param('kwargs', Opaque('DriverArgs'))
+        c.env = {'environ': ENV}
+        c.abstract('if asyncio.iscoroutinefunction(translate_request):',
+                   'environ = translate_request(*args, **kwargs): the async driver maps its request '
+                   'object to the environ dict assumed here')
+        c.returns_cases(('http-response', 'True', Opaque('HttpResponse')),
+                        ('websocket-session', 'is_websocket_request(self, environ)', QI),
+                        ('websocket-session-over', 'is_websocket_request(self, environ)', NONE))
+    c.requires(SERVER_WF, 'server-wf')
+    c.requires(TABLE_WF, 'sockets-wf')
+    c.requires(CFG_OK, 'cors-config-shape')
+    c.requires("'REQUEST_METHOD' in environ", 'gateway-environ')
+    c.requires("'connect' in self.handlers and handler_accepts(self.handlers['connect'], 2)",
+               'connect-handler-registered')
+    c.requires("all_values(self.sockets, lambda s: not s.upgrading)", 'no-upgrade-in-progress')
+    c.requires("'wsgi.input' in environ and ('CONTENT_LENGTH' not in environ or "
+               "(int_ok(environ['CONTENT_LENGTH']) and int(environ['CONTENT_LENGTH']) >= 0))",
+               'gateway-body')
+    c.requires('len(sr_log) == 0', 'fresh-request')
+    SECOND_UPGRADE = ("not origin_refused(self.cors_allowed_origins, environ) and "
+                      "refusal(self, environ) == 0 and environ['REQUEST_METHOD'] == 'GET' and "
+                      "q_sid(environ) is not None and "
+                      "is_upgrade_request(environ, ['websocket']) and "
+                      "self.sockets[q_sid(environ)].upgraded")
+    c.raises('OSError', SECOND_UPGRADE, label='second-upgrade-refused-undisturbed',
+             ensures=[('established-websocket-undisturbed',
+                       "self.sockets == old(self.sockets) and events == old(events) and "
+                       "hresults == old(hresults) and received == old(received) and "
+                       "unchanged('BaseSocket.closing', 'BaseSocket.closed', 'BaseSocket.upgraded', "
+                       "'BaseSocket.upgrading', 'BaseSocket.connected', 'Queue.taken') and "
+                       "len(sr_log) == 0")],
+             props=['C06'])
+    c.may_raise('Exception', 'is_websocket_request(self, environ)', label='websocket-driver-error',
+                props=['C15'])
+    c.ensures('origin-gate-first', "implies(origin_refused(self.cors_allowed_origins, environ), "
+              "sr_log == ['400 BAD REQUEST'] and " + NOTHING + ")", props=['C13'])
+    c.ensures('refused-400-has-no-effect', "implies(not origin_refused(self.cors_allowed_origins, "
+              "environ) and old(refusal(self, environ)) == 400, sr_log == ['400 BAD REQUEST'] and " +
+              NOTHING_BUT_REAPING + ")", props=['C12'])
+    c.ensures('refused-405-has-no-effect', "implies(not origin_refused(self.cors_allowed_origins, "
+              "environ) and old(refusal(self, environ)) == 405, sr_log == ['405 METHOD NOT FOUND'] and " +
+              NOTHING + ")", props=['C12'])
+    c.ensures('one-well-formed-response', "implies(not old(is_websocket_request(self, environ)), "
+              "len(sr_log) == 1 and sr_log[0] in ('200 OK', '400 BAD REQUEST', '401 UNAUTHORIZED', "
+              "'405 METHOD NOT FOUND'))", props=['C15'])
+    if _cls == 'Server':
+        c.ensures('body-is-one-chunk', "implies(not old(is_websocket_request(self, environ)), "
+                  "len(result) == 1)", props=['C15'])
+    c.modifies('self.sockets', 'self.sequence_number', 'self.start_service_task',
+               'self.service_task_handle', 'Socket.closing', 'Socket.closed', 'Socket.connected',
+               'Socket.upgraded', 'Socket.upgrading', 'Queue.items', 'Queue.unf', 'Queue.taken',
+               'Queue.accepted', 'Queue.put_none', 'Queue.taken_none', 'Packet.encode_cache',
+               'ghost.csprng', 'ghost.events', 'ghost.hresults', 'ghost.spawned', 'ghost.now', 'ghost.ws_log',
+               'ghost.received', 'ghost.reads', 'ghost.sr_log', 'ghost.sr_headers')
+    _FINAL = ('cors_headers = self._cors_headers(environ)' if _cls == 'Server' else
+              'return await self._make_response(r, environ)')
+    c.ghost_before('if self.http_compression and', 'r0', 'r')
+    METHODS = "('gzip', 'deflate')"
+    c.loop(1, index='i', invariants=[
+        ('untouched-so-far', "r['status'] == r0['status'] and r['headers'] == r0['headers'] and "
+         "r['response'] == r0['response']"),
+        ('none-of-the-earlier-codings-is-supported',
+         'forall(lambda k: not supported(encodings[k]), 0, i)')],
+        modifies=['r'], props=['C19'])
+    DECLARED = ("exists(lambda i: supported(offered(environ)[i]) and "
+                "forall(lambda k: not supported(offered(environ)[k]), 0, i) and "
+                "r['headers'] == r0['headers'] + [('Content-Encoding', offered(environ)[i])] and "
+                "r['response'] == compressed(offered(environ)[i], r0['response']), "
+                "0, len(offered(environ)))")
+    ELIGIBLE = "self.http_compression and len(r0['response']) >= self.compression_threshold"
+    c.check_before(_FINAL, 'status-kept',
+                   "r['status'] == r0['status']")
+    c.check_before(_FINAL,
+                   'undeclared-body-is-never-compressed',
+                   "implies(r['headers'] == r0['headers'], r['response'] == r0['response'])",
+                   props=['C19'])
+    c.check_before(_FINAL,
+                   'declared-only-if-enabled-large-enough-and-offered',
+                   "r['headers'] == r0['headers'] or (" + ELIGIBLE + " and " + DECLARED + ")",
+                   props=['C19'])
+    c.check_before(_FINAL,
+                   'first-supported-offered-coding-is-used',
+                   "implies(" + ELIGIBLE + " and exists(lambda i: supported(offered(environ)[i]), 0, "
+                   "len(offered(environ))), r['headers'] != r0['headers'])", props=['C19'])
+    NOT_GATED = 'not origin_refused(self.cors_allowed_origins, environ)'
+    c.cut('if jsonp and jsonp_index is None:', [
+        ('gate-passed', NOT_GATED),
+        ('nothing-yet', 'len(sr_log) == 0 and ' + NOTHING),
+        ('method', "method == environ['REQUEST_METHOD']"),
+        ('query', 'query == q_of(environ)'),
+        ('transport', 'transport == q_transport(environ) and transport in self.transports'),
+        ('sid', 'sid == q_sid(environ)'),
+        ('version', "implies(sid is None, query.get('EIO') == ['4'])"),
+        ('jsonp-flag', "jsonp == ('j' in query)"),
+        ('jsonp-index', "implies(jsonp and jsonp_index is None, jsonp_bad(environ)) and "
+         "implies(jsonp_index is not None, jsonp and not jsonp_bad(environ))"),
+    ])
+    c.cut('if not isinstance(r, dict):', [
+        ('no-response-yet', 'implies(isinstance(r, dict), len(sr_log) == 0)'),
+        ('refused-400', 'implies(' + NOT_GATED + " and old(refusal(self, environ)) == 400, "
+         "r['status'] == '400 BAD REQUEST' and " + NOTHING_BUT_REAPING + ')'),
+        ('refused-405', 'implies(' + NOT_GATED + " and old(refusal(self, environ)) == 405, "
+         "r['status'] == '405 METHOD NOT FOUND' and " + NOTHING + ')'),
+        ('gate-passed', NOT_GATED),
+        ('second-upgrade-never-answered', 'not old(' + SECOND_UPGRADE + ')'),
+        ('non-dict-only-when-admitted', 'isinstance(r, dict) or old(refusal(self, environ)) == 0'),
+        ('non-dict-only-for-websocket', 'isinstance(r, dict) or old(is_websocket_request(self, environ))'),
+        ('status-line', "implies(isinstance(r, dict), r['status'] in ('200 OK', '400 BAD REQUEST', "
+         "'401 UNAUTHORIZED', '405 METHOD NOT FOUND'))"),
+    ])
 
 # -------------------------------------------------------------------------- _service_task (C07)
 # The client monitor: one sweep visits every session once, calls check_ping_timeout on those not
@@ -351,6 +384,9 @@ for _cls, _mod in (('Server', 'server'), ('AsyncServer', 'async_server')):
     c.ghost_before('for s in self.sockets.copy().values():', 'snap', 'self.sockets')
     c.check_before('for s in self.sockets.copy().values():', 'sweep-sleeps-add-up-to-ping-timeout',
                    'n0 > 0 and n0 * sleep_interval <= self.ping_timeout', props=['C07'])
+    # C16: the monitor removes a session from the table only once it is closed
+    c.check_before('del self.sockets[s.sid]', 'only-closed-sessions-are-reaped', 's.closed',
+                   props=['C16', 'C07'])
     c.loop(1, index='j', invariants=[
         ('sockets-wf', TABLE_WF),
         ('snapshot-wf', 'all_values(snap, lambda s: sock_wf(s))'),
